@@ -1799,7 +1799,7 @@ def _eval_bosonic_query(spec, q, lossy, cache=None):
                 ps[2] = ps[2] + 1          # other parity: same means and covariances, different weights
                 spec2["cmds"][0][1] = ps
             elif differ:
-                spec2["cmds"].append(["Rgate", [0.3], [0], False])
+                spec2["cmds"].append(["Dgate", [0.3, 0.4], [0], False])     # a displacement changes every state
             other = run_spec(spec2, "bosonic")[1]
             got = bool(sb == other), bool(other == sb), bool(sb == copy.deepcopy(sb))
             if not got[2] or got[0] != got[1] or got[0] == differ:
